@@ -115,10 +115,9 @@ func (l *fileBasedLoader) isGlobal() bool {
 func (l *fileBasedLoader) find(c px.Context, name px.TypedName) px.LoaderEntry {
 	if name.IsQualified() {
 		// The name is in a name space.
-		if l.moduleName != `` && l.moduleName != name.Parts()[0] {
+		if !l.isGlobal() && l.moduleName != name.Parts()[0] {
 			// Then entity cannot possible be in this module unless the name starts with the module name.
-			// Note: If "module" represents a "global component", the module_name is empty and cannot match which is
-			// ok since such a "module" cannot have namespaced content).
+			// Note: A "global component" (no module name, or the environment) has no module name in its names.
 			return nil
 		}
 		if name.Namespace() == px.NsTask && len(name.Parts()) > 2 {
